@@ -90,7 +90,7 @@ fn sanitize_node(rng: &mut Rng, n: &mut BNode, in_array: bool) {
                 _ => {}
             }
             // small numbers in the WIDE encodings too (the narrow integer targets of `leaf_ty` must read them alike)
-            if rng.chance(1, 8) {
+            if rng.chance(1, 5) {
                 match l { BLeaf::U32(v) => *l = BLeaf::U64((*v % 1001) as u64), BLeaf::I32(v) => *l = BLeaf::I64((*v % 1001) as i64), _ => {} }
             }
             if let BLeaf::Quoted(b) = l { if b.contains(&b'"') || b.contains(&b'\\') { *l = BLeaf::Quoted(b"q".to_vec()); } }
@@ -132,7 +132,8 @@ fn leaf_ty(rng: &mut Rng, l: &BLeaf) -> Ty {
     // on-demand binary path decides by lexeme id whether the token is a raw id or a number)
     let small: Option<i64> = match l { BLeaf::I32(v) => Some(*v as i64), BLeaf::I64(v) => Some(*v), BLeaf::U32(v) => Some(*v as i64), BLeaf::U64(v) if *v <= 1000 => Some(*v as i64), _ => None };
     if let Some(v) = small {
-        if rng.chance(1, 4) {
+        let wide = matches!(l, BLeaf::U64(_) | BLeaf::I64(_));
+        if rng.chance(1, if wide { 2 } else { 4 }) {
             let mut c = vec![];
             if (0..=255).contains(&v) { c.push(Ty::U8); } if (0..=65535).contains(&v) { c.push(Ty::U16); }
             if (-128..=127).contains(&v) { c.push(Ty::I8); } if (-32768..=32767).contains(&v) { c.push(Ty::I16); }
